@@ -110,6 +110,77 @@ func extract(o *lib.Out, root string, wants []want) {
 	}
 }
 
+// runE finds the function literal bound to the key RunE of a cobra.Command literal in a file and wraps it as a
+// declaration, so that lib.NormFunc can print it.
+func runE(f *lib.File) *ast.FuncDecl {
+	var lit *ast.FuncLit
+	ast.Inspect(f.AST, func(n ast.Node) bool {
+		kv, ok := n.(*ast.KeyValueExpr)
+		if !ok || lit != nil {
+			return lit == nil
+		}
+		if id, ok := kv.Key.(*ast.Ident); ok && id.Name == "RunE" {
+			if fl, ok := kv.Value.(*ast.FuncLit); ok {
+				lit = fl
+			}
+		}
+		return lit == nil
+	})
+	if lit == nil {
+		return nil
+	}
+	return &ast.FuncDecl{Name: ast.NewIdent("RunE"), Type: lit.Type, Body: lit.Body}
+}
+
+// rewriteShape: how a command's RunE treats the configuration between LoadConfigFile and WriteConfigFile.
+// loaded: the variable bound by `x, err := project.LoadConfigFile(…)`; fields: the fields of that variable that are
+// assigned (in source order); whole: the variable is assigned as a whole somewhere else; written: WriteConfigFile's
+// second argument is that variable.
+func rewriteShape(fd *ast.FuncDecl) (fields []string, whole bool, written bool, found bool) {
+	loaded := ""
+	isCall := func(e ast.Expr, name string) *ast.CallExpr {
+		c, ok := e.(*ast.CallExpr)
+		if !ok {
+			return nil
+		}
+		if sel, ok := c.Fun.(*ast.SelectorExpr); ok && sel.Sel.Name == name {
+			return c
+		}
+		return nil
+	}
+	ast.Inspect(fd.Body, func(n ast.Node) bool {
+		switch n := n.(type) {
+		case *ast.AssignStmt:
+			if len(n.Rhs) == 1 && isCall(n.Rhs[0], "LoadConfigFile") != nil && len(n.Lhs) >= 1 {
+				if id, ok := n.Lhs[0].(*ast.Ident); ok && loaded == "" {
+					loaded, found = id.Name, true
+					return true
+				}
+			}
+			for _, l := range n.Lhs {
+				switch l := l.(type) {
+				case *ast.Ident:
+					if loaded != "" && l.Name == loaded {
+						whole = true
+					}
+				case *ast.SelectorExpr:
+					if id, ok := l.X.(*ast.Ident); ok && loaded != "" && id.Name == loaded {
+						fields = append(fields, l.Sel.Name)
+					}
+				}
+			}
+		case *ast.CallExpr:
+			if c := isCall(n, "WriteConfigFile"); c != nil && len(c.Args) == 2 {
+				if id, ok := c.Args[1].(*ast.Ident); ok && id.Name == loaded {
+					written = true
+				}
+			}
+		}
+		return true
+	})
+	return
+}
+
 // required version of a module in go.mod
 func required(repo, mod string) string {
 	b, err := os.ReadFile(filepath.Join(repo, "go.mod"))
@@ -176,6 +247,32 @@ func main() {
 			q[i] = lib.LeanString(t)
 		}
 		o.Def("structTags", "List String", "["+strings.Join(q, ", ")+"]")
+	}
+
+	// the command layer: what `dawn get` and `dawn tidy` do between LoadConfigFile and WriteConfigFile
+	for _, w := range []struct{ file, name string }{{"cmd/dawn/get.go", "get"}, {"cmd/dawn/tidy.go", "tidy"}} {
+		f, err := lib.Parse(*repo, w.file)
+		if err != nil {
+			o.Fail("parse %s: %v", w.file, err)
+			continue
+		}
+		fd := runE(f)
+		if fd == nil {
+			o.Fail("RunE literal not found in %s", w.file)
+			continue
+		}
+		fields, whole, written, found := rewriteShape(fd)
+		if !found {
+			o.Fail("%s: no `x, err := project.LoadConfigFile(…)`", w.file)
+		}
+		q := make([]string, len(fields))
+		for i, t := range fields {
+			q[i] = lib.LeanString(t)
+		}
+		o.Def(w.name+"AssignedFields", "List String", "["+strings.Join(q, ", ")+"]")
+		o.Def(w.name+"ReassignsConfig", "Bool", fmt.Sprint(whole))
+		o.Def(w.name+"WritesLoadedConfig", "Bool", fmt.Sprint(written))
+		o.Def(w.name+"RunBody", "String", lib.LeanLongString(normBody(fd)))
 	}
 
 	// go-toml v2: the version the module requires, and the encoder functions the model reproduces
